@@ -12,6 +12,9 @@ class List(Expression):
     num_blocks = 2
 
     def __init__(self, expr, min_len=None, max_len=None):
+        # "List(e, min_len=n)" gives the bound as a reference to the name n,
+        # "e{n,}" gives the name: the same thing.
+        min_len, max_len = _bound_name(min_len), _bound_name(max_len)
         self.expr = expr
         self.min_len = min_len
         self.max_len = max_len
@@ -120,6 +123,12 @@ class List(Expression):
                 with out.IF(STATUS):
                     out += RESULT << self._underflow.error_func()
                     out += STATUS << False
+
+
+def _bound_name(value):
+    if getattr(value, 'is_reference', False):
+        return value.name
+    return value
 
 
 def _bound(value):
